@@ -128,11 +128,19 @@ func c05Monitor(vf, vt *StoreView, auxBefore string, tr Trans, res *StepResult) 
 func c05StateOracle(v *StoreView, aux string) (string, string) {
 	for _, c := range v.Cfgs {
 		n := c.Status.Committed.Index
-		if n == 0 {
-			continue
+		// the last proposal really merged: aborted proposals move the committed index past themselves without
+		// touching the values
+		var p *configapi.Proposal
+		id := ""
+		for ; n > 0; n-- {
+			id = fmt.Sprintf("%s-%d", c.TargetID, n)
+			p = v.Props[configapi.ProposalID(id)]
+			if p == nil || p.Status.Phases.Abort != nil || (p.Status.Phases.Validate != nil && p.Status.Phases.Validate.State == configapi.ProposalValidatePhase_FAILED) {
+				p = nil
+				continue
+			}
+			break
 		}
-		id := fmt.Sprintf("%s-%d", c.TargetID, n)
-		p := v.Props[configapi.ProposalID(id)]
 		if p == nil || p.Status.Phases.Commit == nil || p.Status.Phases.Commit.State != configapi.ProposalCommitPhase_COMMITTED {
 			continue
 		}
@@ -182,6 +190,11 @@ func c05Scenarios(thorough bool) []*Scenario {
 				setReq("del sub + leafA2", del("T1", "/cont/sub"), upd("T1", "/cont/leafA2", "2"))}},
 		{Name: "S4x Set, Set, rollback of the second, with the exclusion rule", Cfg: WorldConfig{Targets: []string{"T1"}}, Init: both,
 			Requests: []SetReqOrCall{a("leafA", "1"), a("sub/leafC", "c"), rollbackReq("rollback(2)", 2)}},
+		{Name: "S3y Set on T1, then a Set on T1+T2 that T2's model rejects", Cfg: WorldConfig{Targets: []string{"T1", "T2"}},
+			Init: func(w *World) {
+				w.plugins["T2"].SetVerdict(rejectIf(func(f map[string]string) bool { return f["/cont/leafA"] == "bad" }, "leafA must not be bad"))
+			},
+			Requests: []SetReqOrCall{a("leafA", "1"), setReq("T1.leafA2=2+T2.leafA=bad", upd("T1", "/cont/leafA2", "2"), upd("T2", "/cont/leafA", "bad"))}},
 		{Name: "S3x Set on T1+T2 and a neighbour on T1 that excludes it", Cfg: WorldConfig{Targets: []string{"T1", "T2"}}, Init: both,
 			Requests: []SetReqOrCall{setReq("T1.leafA=x+T2.leafA=y", upd("T1", "/cont/leafA", "x"), upd("T2", "/cont/leafA", "y")), a("leafA2", "z")}},
 	}
